@@ -655,6 +655,107 @@ func runRouterWide(run *core.Run, seed int64) (tv.Trace, string) {
 	return tr, problem
 }
 
+
+// runRouterPacedStall: the clause "a subscriber that stops reading loses only its own deliveries".
+// buflen 1-3; connection 1 subscribes to everything and stops reading for good after 2-3 messages;
+// 2-3 healthy connections subscribe to everything and keep reading; one publisher publishes one event
+// at a time and goes on only when every healthy subscriber has received it, so that a healthy
+// connection's queue never holds more than one event -- none of them can overflow, and the drained end
+// may demand completeness for them (RouterObs exempts the stalled connection, nobody else).
+func runRouterPacedStall(run *core.Run, seed int64) (tv.Trace, string) {
+	r := rand.New(rand.NewSource(seed))
+	conc := abs.NewConc()
+	rec := &rrec{}
+	buflen := 1 + r.Intn(3)
+	router := mocrelay.NewRouterHandler(buflen)
+	var evMu sync.Mutex
+	evs := map[string]abs.Event{}
+	evOf := func(l string) (abs.Event, bool) { evMu.Lock(); defer evMu.Unlock(); e, ok := evs[l]; return e, ok }
+	root, rootCancel := context.WithCancel(context.Background())
+	defer rootCancel()
+	nHealthy := 2 + r.Intn(2)
+	var conns []*rconn
+	for i := 1; i <= nHealthy+2; i++ {
+		ctx, cancel := context.WithCancel(root)
+		c := &rconn{id: i, ctx: ctx, cancel: cancel, send: make(chan mocrelay.ServerMsg), recv: make(chan mocrelay.ClientMsg), done: make(chan error, 1),
+			rec: rec, conc: conc, evOf: evOf, eose: map[string]int{}, oks: map[string]int{}, gotEv: map[string]bool{}}
+		if i == 1 {
+			c.stallFor = time.Hour
+			c.stallAt = 2 + r.Intn(2)
+		}
+		conns = append(conns, c)
+		go func() { c.done <- router.ServeNostr(c.ctx, c.send, c.recv) }()
+		go c.reader()
+	}
+	stalled, healthy, pub := conns[0], conns[1:1+nHealthy], conns[nHealthy+1]
+	problem := ""
+	all := []abs.Filter{{}}
+	tr := tv.Trace{Name: fmt.Sprintf("router-paced-stall-seed%d-buf%d", seed, buflen)}
+	tr.Lines = append(tr.Lines, map[string]any{"op": "reset"})
+	complete := true
+	nsubs := map[int]int{}
+	for _, c := range append([]*rconn{stalled}, healthy...) {
+		// the healthy connections hold one or two subscriptions on their shared queue
+		subs := []string{"s0"}
+		if c != stalled && buflen >= 2 && r.Intn(2) == 0 {
+			subs = append(subs, "s1") // two deliveries per publication still fit the queue
+		}
+		nsubs[c.id] = len(subs)
+		for _, sub := range subs {
+			a := rmsg("REQ")
+			a["sub"] = sub
+			a["fs"] = abs.NormFilters(all)
+			if !c.offer(&mocrelay.ClientReqMsg{SubscriptionID: sub, ReqFilters: conc.Filters(all)}, a) ||
+				!c.wait(func() bool { return c.eose[sub] >= 1 }, 3*time.Second) {
+				complete = false
+				problem = fmt.Sprintf("connection %d: REQ not answered", c.id)
+			}
+		}
+	}
+	publish := func(e abs.Event, what string) bool {
+		evMu.Lock()
+		evs[e.ID] = e
+		evMu.Unlock()
+		a := rmsg("EVENT")
+		a["id"] = e.ID
+		a["ev"] = e
+		if !pub.offer(&mocrelay.ClientEventMsg{Event: conc.Event(e, what)}, a) || !pub.wait(func() bool { return pub.oks[e.ID] >= 1 }, 2*time.Second) {
+			problem = fmt.Sprintf("publisher %d: EVENT not acknowledged within 2s while another connection is stalled", pub.id)
+			return false
+		}
+		for _, c := range healthy {
+			if !c.wait(func() bool { return c.gotEv["s0|"+e.ID] && (nsubs[c.id] < 2 || c.gotEv["s1|"+e.ID]) }, 2*time.Second) {
+				return false // the drained end reports the missing delivery
+			}
+		}
+		return true
+	}
+	n := stalled.stallAt + buflen + 4 + r.Intn(4)
+	for k := 1; k <= n && complete && problem == ""; k++ {
+		e := abs.Event{ID: fmt.Sprintf("p%d", k), Author: []string{"a", "b"}[r.Intn(2)], Kind: int64(1 + r.Intn(2)), TS: int64(1 + r.Intn(5))}
+		if !publish(e, "live") {
+			break
+		}
+	}
+	rootCancel()
+	for _, c := range conns {
+		select {
+		case <-c.done:
+		case <-time.After(3 * time.Second):
+			if problem == "" {
+				problem = fmt.Sprintf("connection %d: ServeNostr did not return after cancel", c.id)
+			}
+		}
+	}
+	rec.mu.Lock()
+	tr.Lines = append(tr.Lines, rec.lines...)
+	rec.mu.Unlock()
+	if complete && problem == "" {
+		tr.Lines = append(tr.Lines, map[string]any{"op": "quiesce", "shape": "quiesce: a must-deliver event / EOSE / OK is missing (a healthy subscriber next to a stalled one)"})
+	}
+	return tr, problem
+}
+
 // C07: router.
 func C07(run *core.Run) {
 	// the mechanism model RouterMC composed with the RouterObs monitor, explored by TLC simulation
@@ -725,6 +826,20 @@ func C07(run *core.Run) {
 	}
 	// a wide fan-out: the accepting OK means the event has been handed to every subscription that was
 	// registered; a subscription opened after the publisher saw the OK gets nothing of it
+	npaced := 12
+	if run.Thorough() {
+		npaced = 300
+	}
+	for i := 0; i < npaced && run.Violations() < 3; i++ {
+		tr, problem := runRouterPacedStall(run, run.Seed*9000+int64(i))
+		if problem != "" {
+			run.Violate("progress:"+stripDigits(problem), problem+" ("+tr.Name+")", map[string]any{"trace": tr.Lines})
+		}
+		traces = append(traces, tr)
+		distinct.Add(tr.Name)
+		run.Add("observations", int64(len(tr.Lines)))
+		run.Add("paced_stall_scenarios", 1)
+	}
 	nwide := 2
 	if run.Thorough() {
 		nwide = 20
@@ -785,7 +900,7 @@ func C07(run *core.Run) {
 			}
 		}
 	}
-	run.Set("rule", "seeded concurrent scenarios on one NewRouterHandler: 3-5 connections, each a goroutine with its own program (REQ over 6 filter lists on 2 subscription ids incl. re-REQ, CLOSE, EVENT with unique events, mid-stream cancel) and a reader goroutine; every 4th scenario has buflen 1-2 and a match-everything subscriber that stops reading for good after 2-3 messages; snd / got / end / stall observations are recorded in one total order; a sentinel subscription + event drains every queue; TLC validates every prefix against RouterObs!StepOK (each delivery justified by an open matching subscription with that label, once, unchanged, publisher order; OK accepting; EOSE per REQ) and the drained end against QuiesceOK (must-deliver pairs delivered, every REQ/EVENT answered); publishers must be acknowledged within 2 s whatever the other connections do. distinct_nontrivial = distinct scenarios")
+	run.Set("rule", "seeded concurrent scenarios on one NewRouterHandler: 3-5 connections, each a goroutine with its own program (REQ over 6 filter lists on 2 subscription ids incl. re-REQ, CLOSE, EVENT with unique events, mid-stream cancel) and a reader goroutine; every 4th scenario has buflen 1-2 and a match-everything subscriber that stops reading for good after 2-3 messages; snd / got / end / stall observations are recorded in one total order; a sentinel subscription + event drains every queue; TLC validates every prefix against RouterObs!StepOK (each delivery justified by an open matching subscription with that label, once, unchanged, publisher order; OK accepting; EOSE per REQ) and the drained end against QuiesceOK (must-deliver pairs delivered, every REQ/EVENT answered); publishers must be acknowledged within 2 s whatever the other connections do; paced stall scenarios (buflen 1-3, one match-everything subscriber that stops reading, 2-3 healthy subscribers with one or two subscriptions each, one publisher that waits for the healthy deliveries before it goes on) demand completeness for every connection but the stalled one. distinct_nontrivial = distinct scenarios")
 	run.Set("evaluations", run.Get("observations"))
 	run.Set("distinct_nontrivial", distinct.Len())
 	run.Assume = append(run.Assume, "a connection that ended or stalled is exempt from completeness (only its own deliveries may be dropped)", "event ids are unique per publication")
